@@ -20,7 +20,7 @@ for p in props:
             'level_claimed': {'category': pm[pid].get('level', 'proof'),
                               'text': m.get('level_text') or ('Unbounded deductive proof (Verus; Kani where named) of the real functions of /repo against contracts taken from the property: ' + pm[pid].get('explanation', '')),
                               'design_ref': m.get('design_ref', 'DESIGN.md §4 ' + pid)},
-            'level_note': m.get('level_note') or ('Assumes: ' + '; '.join(pm[pid].get('assumptions', [])) + '. Trusted: Verus/z3/rustc (Kani/CBMC where used), the extractor transformations T0-T24 (mechanical, counted in the evidence), the assume_specification / external_body items listed in the evidence.'),
+            'level_note': m.get('level_note') or ('Assumes: ' + '; '.join(pm[pid].get('assumptions', [])) + '. Trusted: Verus/z3/rustc (Kani/CBMC where used), the extractor transformations T0-T25 (mechanical, counted in the evidence), the assume_specification / external_body items listed in the evidence.'),
             'technique': m.get('technique', 'contract-based deductive verification (Verus) of the real functions, extracted on every run'),
         })
     else:
